@@ -1,5 +1,6 @@
 (* C16/Extract.v — extraction of the HTTP server response / sequencing model (ExtrOcamlBasic only) *)
 From IoraVerif Require Import C16.Model.
+From IoraVerif Require Import Common.Search C16.Wire.
 Require Import ExtrOcamlBasic.
 Extraction Language OCaml.
-Extraction "../build/ocaml/c16_model.ml" respond cstep cinit.
+Extraction "../build/ocaml/c16_model.ml" respond cstep cinit wire field_line find_pat.
